@@ -19,6 +19,7 @@ import (
 	cidprimary "github.com/ipld/go-storethehash/store/primary/cid"
 	mhprimary "github.com/ipld/go-storethehash/store/primary/multihash"
 	"github.com/ipld/go-storethehash/store/types"
+	"github.com/ipld/go-storethehash/store/verifhook"
 )
 
 var log = logging.Logger("storethehash")
@@ -295,6 +296,7 @@ func (s *Store) Close() error {
 	if err != nil {
 		cerr = err
 	}
+	verifhook.Yield("store.Close.betweenCloses")
 	if err = s.index.Primary.Close(); err != nil {
 		cerr = err
 	}
@@ -324,6 +326,7 @@ func (s *Store) Get(key []byte) ([]byte, bool, error) {
 		return nil, false, nil
 	}
 
+	verifhook.Yield("store.Get.afterIndexGet")
 	primaryKey, value, err := s.getPrimaryKeyData(fileOffset, indexKey)
 	if err != nil {
 		return nil, false, err
@@ -363,6 +366,7 @@ func (s *Store) Put(key []byte, value []byte) error {
 	if err != nil {
 		return err
 	}
+	verifhook.Yield("store.Put.afterIndexGet")
 	// If found, get the key and value stored in primary to see if it is the
 	// same (index only stores prefixes).
 	var storedKey []byte
@@ -400,6 +404,7 @@ func (s *Store) Put(key []byte, value []byte) error {
 	if err != nil {
 		return err
 	}
+	verifhook.Yield("store.Put.afterPrimaryPut")
 
 	// If the key being set is not found, or the stored key is not equal
 	// (even if same prefix is shared @index), we put the key without updates
@@ -442,6 +447,7 @@ func (s *Store) Remove(key []byte) (bool, error) {
 		return false, err
 	}
 
+	verifhook.Yield("store.Remove.afterIndexGet")
 	// If not found it means there's nothing to remove.
 	// Return false with no error
 	if !found {
@@ -535,6 +541,7 @@ func (s *Store) flushTick() {
 	}
 
 	work := s.index.OutstandingWork() + s.index.Primary.OutstandingWork() + s.freelist.OutstandingWork()
+	verifhook.Yield("store.flushTick.afterMeasure")
 	if work <= s.burstRate {
 		// Not enough work to be concerned.
 		return
@@ -569,6 +576,7 @@ func (s *Store) flushTick() {
 		}
 
 		// Wait for next flush to complete.
+		verifhook.Yield("store.flushTick.beforeWait")
 		<-flushNotice
 	}
 }
@@ -582,6 +590,7 @@ func (s *Store) commit() (types.Work, error) {
 	if err != nil {
 		return 0, err
 	}
+	verifhook.Yield("store.commit.afterIndexFlush")
 	flWork, err := s.freelist.Flush()
 	if err != nil {
 		return 0, err
@@ -622,6 +631,7 @@ func (s *Store) Flush() error {
 	if err != nil {
 		return err
 	}
+	verifhook.Yield("store.Flush.afterCommit")
 
 	var rate float64
 	if work > types.Work(s.burstRate) {
